@@ -8,9 +8,9 @@ import replaylib
 from driver import Undecided
 
 
-def _run(s, a, env):
+def _run(s, a, env, timeout=300):
     try:
-        return replaylib.run(s, a, repo=env['repo'])
+        return replaylib.run(s, a, repo=env['repo'], timeout=timeout)
     except replaylib.ReplayUnavailable as e:
         raise Undecided('replay crate unavailable for assumption validation: %s' % e)
 
@@ -302,7 +302,7 @@ def history_c09(env):
 
 def decode_sweep(env):
     """C06 / C07 on the real decoders: bounded exhaustive sweep (see the scenario); no offered byte string may panic the decode path"""
-    got = _run('decode_sweep', {}, env)
+    got = _run('decode_sweep', {}, env, timeout=120)      # about 1 s on the pinned tree
     fails = []
     if got.get('panicked') or got.get('panics', 1) != 0:
         fails.append(dict(scenario='read_request' if not got.get('panicked') else 'decode_sweep',
